@@ -312,7 +312,7 @@ def gen_py_case(rng, layer):
     compact = bool(rng.below(2)) or (block is not None and len(block) > 2)
     only_triu = (not compact) and rng.below(3) == 0
     c = {"layer": layer, "series": series, "container": container, "ndim": ndim, "kwargs": kw, "block": block,
-         "compact": compact, "only_triu": only_triu}
+         "compact": compact, "only_triu": only_triu, "entry": rng.choice(["dtw", "dtw", "fast", "ndim_module"])}
     if layer == "B":
         c["use_c"] = True
         c["use_mp"] = False
@@ -353,6 +353,23 @@ def py_kwargs(c):
     if blk is not None:
         blk = tuple(tuple(x) if isinstance(x, list) else x for x in blk)
     return kw, blk
+
+
+def call_matrix(c, s, blk, kw, parallel, use_c, use_mp):
+    """The public entry points that lead to the parallel routines: dtw.distance_matrix, dtw.distance_matrix_fast and the
+    dtw_ndim module's twins.  The serial twin always goes through the same entry with parallel=False."""
+    from dtaidistance import dtw, dtw_ndim
+    entry = c.get("entry", "dtw")
+    common = dict(block=blk, compact=c["compact"], only_triu=c["only_triu"], parallel=parallel)
+    if entry == "fast" and use_c:
+        k2 = {k: v for k, v in kw.items() if k != "use_ndim"}
+        if c["ndim"]:
+            return dtw_ndim.distance_matrix_fast(s, **{k: v for k, v in k2.items() if k != "use_pruning"}, **common)
+        return dtw.distance_matrix_fast(s, use_mp=use_mp, **k2, **common)
+    if entry == "ndim_module" and c["ndim"]:
+        k2 = {k: v for k, v in kw.items() if k != "use_ndim"}
+        return dtw_ndim.distance_matrix(s, use_c=use_c, use_mp=use_mp, **k2, **common)
+    return dtw.distance_matrix(s, use_c=use_c, use_mp=use_mp, **kw, **common)
 
 
 def norm_result(r):
@@ -456,8 +473,7 @@ def run_py_case(c, want_trace=False):
     # serial twin
     try:
         s1 = build_container(c)
-        ser = dtw.distance_matrix(s1, block=blk, compact=c["compact"], only_triu=c["only_triu"], parallel=False,
-                                  use_c=c["use_c"], **kw)
+        ser = call_matrix(c, s1, blk, kw, False, c["use_c"], False)
         ser_n = norm_result(ser)
     except Exception as exc:  # noqa
         out["outcome"] = "skip"
@@ -471,8 +487,7 @@ def run_py_case(c, want_trace=False):
             if _simomp is None:
                 _simomp = SimOmp()
             _simomp.configure(c["sched"])
-            par = dtw.distance_matrix(s2, block=blk, compact=c["compact"], only_triu=c["only_triu"], parallel=True,
-                                      use_c=True, use_mp=False, **kw)
+            par = call_matrix(c, s2, blk, kw, True, True, False)
             st = _simomp.stats()
             out["stats"] = st
             out["sched_digest"] = _simomp.L.simomp_sched_digest()
@@ -483,8 +498,7 @@ def run_py_case(c, want_trace=False):
             tr = c["sched"].get("trace")
             sim = simpool.PoolSim(rng=core.Rng(c["sched"]["seed"]), replay=tr, backend=c["sched"].get("backend", "inproc"))
             with simpool.install(sim):
-                par = dtw.distance_matrix(s2, block=blk, compact=c["compact"], only_triu=c["only_triu"], parallel=True,
-                                          use_c=c["use_c"], use_mp=True, **kw)
+                par = call_matrix(c, s2, blk, kw, True, c["use_c"], True)
             out["pool"] = sim.counters
             out["trace"] = sim.trace
             out["sched_digest"] = int(core.hash_obj(sim.trace), 16)
@@ -542,6 +556,7 @@ def py_batch(layer, seed, frm, count, progress=None):
         res["runs"] += 1
         bump("container:" + c["container"] + (":ndim" if c["ndim"] else ""))
         bump("block:" + ("none" if c["block"] is None else ("rect" if len(c["block"]) > 2 else "triu")))
+        bump("entry:" + c.get("entry", "dtw"))
         if r["outcome"] == "skip":
             res["skipped"] += 1
             bump("serial_raised:" + r.get("serial_exc", "?"))
